@@ -68,6 +68,8 @@ type CheckOpts struct {
 	Verbose  bool
 	Audit    bool
 	Diagnose bool
+	// obligations listed as known findings: not worth a retry with a larger budget when undecided
+	NoRetry map[string]bool
 }
 
 func hasProp(props []string, p string) bool {
@@ -326,7 +328,7 @@ func Check(p *Program, opts CheckOpts) *Report {
 	{
 		var retry []*sjob
 		for _, sj := range sjobs {
-			if sj.j.expect == "unsat" && sj.j.res.Status == "unknown" {
+			if sj.j.expect == "unsat" && sj.j.res.Status == "unknown" && !opts.NoRetry[sj.j.o.ID] {
 				retry = append(retry, sj)
 			}
 		}
